@@ -423,14 +423,15 @@ static size_t memory_share (svalue_t * sv) {
     case T_STRING:
       switch (sv->subtype)
         {
+        /* a reference count of 0 marks an immortal string (its counter saturated at USHRT_MAX references) */
         case STRING_MALLOC:
           return total +
             (1 + COUNTED_STRLEN (sv->u.string) + sizeof (malloc_block_t)) /
-            (COUNTED_REF (sv->u.string));
+            (COUNTED_REF (sv->u.string) ? COUNTED_REF (sv->u.string) : USHRT_MAX);
         case STRING_SHARED:
           return total +
             (1 + COUNTED_STRLEN (sv->u.string) + sizeof (block_t)) /
-            (COUNTED_REF (sv->u.string));
+            (COUNTED_REF (sv->u.string) ? COUNTED_REF (sv->u.string) : USHRT_MAX);
         }
       break;
     case T_ARRAY:
@@ -441,11 +442,12 @@ static size_t memory_share (svalue_t * sv) {
       subtotal = sizeof (array_t) - sizeof (svalue_t);
       for (i = 0; i < sv->u.arr->size; i++)
         subtotal += memory_share (&sv->u.arr->item[i]);
-      return total + subtotal / sv->u.arr->ref;
+      /* the shared empty array is handed out without counting: its counter can read 0 */
+      return total + subtotal / (sv->u.arr->ref ? sv->u.arr->ref : 1);
     case T_MAPPING:
       subtotal = sizeof (mapping_t);
       mapTraverse (sv->u.map, node_share, &subtotal);
-      return total + subtotal / sv->u.map->ref;
+      return total + subtotal / (sv->u.map->ref ? sv->u.map->ref : 1);
     case T_FUNCTION:
       {
         svalue_t tmp;
@@ -472,12 +474,12 @@ static size_t memory_share (svalue_t * sv) {
             subtotal += sizeof (functional_t);
             break;
           }
-        return total + subtotal / sv->u.fp->hdr.ref;
+        return total + subtotal / (sv->u.fp->hdr.ref ? sv->u.fp->hdr.ref : 1);
       }
     case T_BUFFER:
       /* first byte is stored inside the buffer struct */
       return total + (sizeof (buffer_t) + sv->u.buf->size -
-                      1) / sv->u.buf->ref;
+                      1) / (sv->u.buf->ref ? sv->u.buf->ref : 1);
     }
   return total;
 }
